@@ -180,6 +180,10 @@ def same_insn(arch, mine, theirs):
             return bool(tt) and tt.group(1) == mm.group(1) and regnum(tt.group(2).rstrip(",")) == int(mm.group(2)) and _num(tt.group(3)) == int(mm.group(3))
         if m in ("nop", "nop.w"):
             return t in ("nop", "nop.w")
+        mm = re.match(r"(b|b\.w) #(-?\d+)", m)
+        if mm:
+            tt = re.match(r"(b|b\.w) #(-?[0-9a-fx]+)", t)
+            return bool(tt) and _num(tt.group(2)) == int(mm.group(2))
         return False
     except Exception:
         return False
